@@ -23,6 +23,13 @@ MANIFESTS = {
     "setup_py_crlf": {"setup.py": b'from setuptools import setup\r\nsetup(\r\n    name="x",\r\n    install_requires=[\r\n        "requests",\r\n    ],\r\n)\r\n'},
     "pyproject_crlf": {"pyproject.toml": b'[project]\r\nname="x"\r\ndependencies = [\r\n  "requests",\r\n]\r\n'},
     "two_manifests": {"requirements.txt": b"requests\n", "setup.cfg": b"[options]\ninstall_requires =\n    requests\n"},
+    # several manifests of which the first in discovery order (pyproject.toml, setup.py, requirements.txt, setup.cfg) cannot take the dependency: the writer falls through to a later one
+    "dynamic_pyproject+req": {"pyproject.toml": b'[project]\nname = "x"\ndynamic = ["dependencies"]\n\n[tool.setuptools.dynamic]\ndependencies = {file = ["requirements.txt"]}\n', "requirements.txt": b"requests\n"},
+    "setup_py_computed+req": {"setup.py": b'from setuptools import setup\nREQS = open("requirements.txt").read().split()\nsetup(name="x", install_requires=REQS)\n', "requirements.txt": b"requests\n"},
+    "tool_only_pyproject+setup_cfg": {"pyproject.toml": b'[build-system]\nrequires = ["setuptools"]\n\n[tool.black]\nline-length = 88\n', "setup.cfg": b"[options]\ninstall_requires =\n    requests\n"},
+    "four_manifests": {"pyproject.toml": b'[build-system]\nrequires = ["setuptools"]\n', "setup.py": b'from setuptools import setup\nsetup()\n', "requirements.txt": b"requests\n", "setup.cfg": b"[options]\ninstall_requires =\n    requests\n"},
+    "nested_requirements": {"services/api/requirements.txt": b"requests\n"},
+    "nested_pyproject+root_cfg": {"services/api/pyproject.toml": b'[project]\nname="x"\ndependencies = [\n  "requests",\n]\n', "setup.cfg": b"[metadata]\nname = x\n"},
 }
 # a manifest that is also an ordinary source file other codemods rewrite
 SETUP_PY_WITH_TRIGGERS = b"""from setuptools import setup
